@@ -374,6 +374,19 @@ func (l *ILeaf) VirtualWrite(ctx context.Context, buf []byte, off uint64) (int, 
 // "setattr" can park it or make it fail.
 func (l *ILeaf) VirtualSetAttributes(ctx context.Context, in *virtual.Attributes, requested virtual.AttributesMask, out *virtual.Attributes) virtual.Status {
 	if l.w.eventF(Event{Kind: "setattr", Leaf: l.ID}, false) {
+		// The injected fault stands for a failing truncation of the backing file.  The real
+		// file refuses a size change with ESTALE *before* it touches its storage when nobody
+		// refers to it any more (fileBackedFile.VirtualSetAttributes: referenceCount == 0), so a
+		// dead leaf answers ESTALE, not EIO (found by a thorough run: SETATTR with the anonymous
+		// state ID on an unlinked, closed file with a fault injected).
+		if _, hasSize := in.GetSizeBytes(); hasSize {
+			var a virtual.Attributes
+			if st := l.LinkableLeaf.VirtualOpenSelf(ctx, virtual.ShareMaskRead, &virtual.OpenExistingOptions{}, 0, &a); st == virtual.StatusErrStale {
+				return virtual.StatusErrStale
+			} else if st == virtual.StatusOK {
+				l.LinkableLeaf.VirtualClose(virtual.ShareMaskRead)
+			}
+		}
 		return virtual.StatusErrIO
 	}
 	return l.LinkableLeaf.VirtualSetAttributes(ctx, in, requested, out)
